@@ -17,6 +17,10 @@ CHECKS = {
    text='Partial (matrix, excitation, load and far-field algebra; the conditioning clause is outside). A catalogue antenna over ideal ground and the free-space pair of antenna + mirror image (built through the public API, grounded wires continued into their image) are filled over ONE table of unknown integrals; pulses are matched by position and flow direction. z3 decides for ALL values of the unknowns that every entry of the ground matrix is the block sum of the free-space matrix (image term, its omission on the plane), for all complex V and Z_L that sources/loads on the plane correspond to 2V / 2Z_L (half the impedance), and for all pulse currents that the far field over ground is that of antenna + image (+3.0103 dB with P_F = 2P). Structural differences are replayed by solving both models on the real code with the tolerance of the property.',
    design='DESIGN.md 3 (C03), 9',
    technique='symbolic execution of the real matrix fill / rhs / load / far-field code for two models over shared uninterpreted integral-atoms; z3 (LRA, polynomial identities) decides the block identities for all atom values, voltages, loads and currents; candidates replayed numerically on the untouched package'),
+ 'C04': dict(
+   text='Partial (assembly of E and H from the potentials and the currents, power scaling; far-field limit, 376.7 ohm and transversality are outside). The real compute_near_field / nf_helper / psi_near_field_56 / psi run for observation points on catalogue geometries (straight, L joined end2-end1 / end1-end1 / end2-end2 with different radii and segment lengths, T, star, wires grounded at either end, tapered wire, arc, helix) with symbolic pulse currents and every numerical integral an unknown; z3 decides on the monomial relaxation that all six components equal the per-half assembly written from pulse geometry alone (own direction, radius, segment length per half; image terms; finite differences over 0.001 lambda) for ALL currents and ALL values of the integrals, and that fields scale with sqrt(P_req/P). Structural differences are replayed on the real code: solved currents, adaptive quadrature, 1 %. One finding (nf_helper second half) repaired.',
+   design='DESIGN.md 3 (C04), 9',
+   technique='symbolic execution of the real near-field code on symbolic currents over uninterpreted integral-atoms; z3 (LRA on the monomial relaxation of the bilinear forms) decides equality with the geometry-only reference for all values; candidates replayed numerically on the untouched package'),
  'C06': dict(
    text="Partial (reversal and reordering; the collinear-split clause and the near field are outside, the latter decided under C04). A catalogue structure and each re-description (every order of the wires, every choice of reversed wires; quick: a spread of the variants) are filled over ONE table of unknown integrals. From pulse geometry alone the reference computes the integer matrix C expressing the pulses of D' in those of D (signed permutation, or a change of basis at junctions of three or more wires). z3 decides for ALL values of the integrals that Z' = C Z C^T entry by entry, for all complex V, Z_L that sources/loads on common pulses carry the orientation sign, and for all currents that the far field of D' with I' is that of D with C^T I'. Structural differences are replayed by solving both descriptions on the real code (5e-4, condition-number clause).",
    design='DESIGN.md 3 (C06), 9',
